@@ -153,7 +153,8 @@ class Check:
             fin, fout = os.path.join(tmpd, f"in{k}.pkl"), os.path.join(tmpd, f"out{k}.pkl")
             with open(fin, "wb") as f:
                 pickle.dump(dict(descs=[descs[i] for i in idx], env=env, timeout=cfg["timeout"], deadline=t0 + cfg["budget"], workers=workers), f)
-            e = dict(os.environ, PYTHONHASHSEED=str(env["PYTHONHASHSEED"]), VERIF_NO_REEXEC="1", VERIF_HEAP=str(env.get("heap", 0)))
+            e = dict(os.environ, PYTHONHASHSEED=str(env["PYTHONHASHSEED"]), VERIF_NO_REEXEC="1", VERIF_HEAP=str(env.get("heap", 0)),
+                     VERIF_ENV_JSON=json.dumps(env))
             cmd = ["setarch", "x86_64", "-R", sys.executable, os.path.join(VERIF, "vcheck"), self.reg_name(), "--worker", fin, fout]
             procs.append((idx, fout, subprocess.Popen(cmd, env=e, stdout=subprocess.PIPE, stderr=subprocess.STDOUT, text=True), env))
         results = [None] * len(descs)
@@ -341,7 +342,8 @@ class Check:
         env = desc.get("env") if isinstance(desc, dict) else None
         if env and os.environ.get("VERIF_REPLAY_ENV") != "1":
             # re-create the interpreter seams of the failing run: hash seed, ASLR off, heap perturbation
-            e = dict(os.environ, PYTHONHASHSEED=str(env["PYTHONHASHSEED"]), VERIF_NO_REEXEC="1", VERIF_HEAP=str(env.get("heap", 0)), VERIF_REPLAY_ENV="1")
+            e = dict(os.environ, PYTHONHASHSEED=str(env["PYTHONHASHSEED"]), VERIF_NO_REEXEC="1", VERIF_HEAP=str(env.get("heap", 0)), VERIF_REPLAY_ENV="1",
+                     VERIF_ENV_JSON=json.dumps(env))
             p = subprocess.run(["setarch", "x86_64", "-R", sys.executable, os.path.join(VERIF, "vcheck"), self.reg_name(), "--replay", path], env=e)
             return p.returncode
         pool = C.ForkPool(workers=1, timeout=600)
